@@ -549,9 +549,12 @@ def high_precision_delay_probe(ck: Ck, base: str, wd: str) -> None:
         b.save(path)
     got = B.BSP(path).ents.entities[0].outputs[0].delay
     ck.count('directed_probes')
-    if got != 1234567.0:
-        ck.violation('ents:output-delay-more-than-6-significant-digits',
-                     f'Output delay 1234567.0 (float32-representable) is written with %g and read back as {got!r}',
+    # Not a violation: the output text format carries six significant digits for the delay, and the properties (C06)
+    # state exactly that tolerance. Recorded as an observation; a loss beyond six significant digits is reported.
+    ck.extra['observation_output_delay_g6'] = {'delay': 1234567.0, 'read_back': got}
+    if abs(got - 1234567.0) > 5e-6 * 1234567.0:
+        ck.violation('ents:output-delay-lost-beyond-6-significant-digits',
+                     f'Output delay 1234567.0 read back as {got!r}: more than six significant digits lost',
                      {'delay': 1234567.0, 'read_back': got, 'how': 'Output(..., delay=1234567.0) in bsp.ents; save; re-read'})
 
 
